@@ -45,18 +45,20 @@ Definition applicable (k : kind) (c : call) : bool :=
   | SetWill _ | SetWillDelayInterval _ | SetCleanStart _ | SetProtocolVersion _
   | SetProtocolName _ | SetClientID _ | SetKeepAlive _ | SetRequestResponseInfo _
   | SetRequestProblemInfo _ | SetUsername _ | SetPassword _ => kind_eqb k KConnect
-  | SetSessionExpiryInterval _ | SetReceiveMax _ | SetMaxPacketSize _
+  | SetSessionExpiryInterval _ => kind_eqb k KConnect || kind_eqb k KConnAck || kind_eqb k KDisconnect
+  | SetReceiveMax _ | SetMaxPacketSize _
   | SetTopicAliasMax _ => kind_eqb k KConnect || kind_eqb k KConnAck
   | SetAuthMethod _ | SetAuthData _ =>
       kind_eqb k KConnect || kind_eqb k KConnAck || kind_eqb k KAuth
   | SetSessionPresent _ | SetMaxQoS _ | SetRetainAvailable _ | SetAssignedClientID _
   | SetWildcardSubAvailable _ | SetSubIdentifiersAvailable _ | SetSharedSubAvailable _
-  | SetServerKeepAlive _ | SetResponseInformation _ | SetServerReference _ =>
+  | SetServerKeepAlive _ | SetResponseInformation _ =>
       kind_eqb k KConnAck
+  | SetServerReference _ => kind_eqb k KConnAck || kind_eqb k KDisconnect
   | SetReasonCode _ =>
       kind_eqb k KConnAck || is_ack k || kind_eqb k KDisconnect || kind_eqb k KAuth
   | SetReasonString _ =>
-      kind_eqb k KConnAck || is_ack k || is_suback k || kind_eqb k KAuth
+      kind_eqb k KConnAck || is_ack k || is_suback k || kind_eqb k KAuth || kind_eqb k KDisconnect
   | SetDuplicate _ | SetRetain _ | SetQoS _ | SetTopicName _ | SetPayloadFormat _
   | SetMessageExpiryInterval _ | SetTopicAlias _ | SetResponseTopic _
   | SetCorrelationData _ | AddSubscriptionID _ | SetContentType _ | SetPayload _ =>
@@ -207,7 +209,9 @@ Definition snapshot (k : kind) (p : pkt) : list obs :=
   | KUnsubscribe =>
     [oN F_packetID p; OL (map OS (ufilters p)); oprops (uprops p)]
   | KPingReq | KPingResp => []
-  | KDisconnect => [oN F_reasonCode p; oprops (uprops p)]
+  | KDisconnect =>
+    [oN F_reasonCode p; oN F_sessionExpiryInterval p; oS F_reasonString p; oS F_serverReference p;
+     oprops (uprops p)]
   | KAuth =>
     [oN F_reasonCode p; oS F_reasonString p; oS F_authMethod p; oS F_authData p;
      oprops (uprops p)]
